@@ -179,9 +179,14 @@ extern (*Engine).capPending
   props C15
   modifies *
 
-extern (*Engine).evictIfNeeded
+// a partition is evicted only while there are more partitions than the cap allows, never at the cap itself
+func (*Engine).evictIfNeeded
   props C15
   modifies *
+  observe n := Len
+  before Remove eviction-only-above-the-cap: e.maxPart > 0 && $n > e.maxPart
+  before Back the-oldest-partition-is-looked-for-only-above-the-cap: e.maxPart > 0 && $n > e.maxPart
+  loop 1 invariant true
 
 pred partOf(e, k) := unbox(e.partMap[k].Value, *partition)
 pred mapUnchanged(m) := forallv(k, "", (dom(m, k) <==> old(dom(m, k))) && m[k] == old(m[k]))
@@ -264,5 +269,28 @@ func NewEngine
   ensures an-engine-or-an-error: result1 == nil ==> result0 != nil && fresh(result0) && result0.partMap != nil && fresh(result0.partMap)
   atreturn the-engine-carries-what-was-configured: result1 == nil ==> result0.spec == spec && result0.nfa == $nfa && result0.lazy == $lazy && seqeq(result0.measures, spec.Measures) && result0.tsField == spec.OrderBy[0].Expression && result0.within == ite(spec.Within <= 0, types.DefaultMatchWithin, spec.Within) && result0.sweepInterval == ite(result0.within / 2 < 50000000, 50000000, result0.within / 2)
   loop 2 invariant len(measurePrep) == len($s)
+
+// ---- row navigation inside a match (MEASURES / DEFINE): PREV and NEXT look at the whole match from the current position
+// (NEXT sees the rows after the current one also when measures are computed row by row), FIRST and LAST count from the
+// ends of the rows in scope, out of range is NULL
+func posIndex
+  props C15
+  option pure
+  ensures while-a-candidate-row-is-tested-the-position-is-just-past-the-matched-rows-otherwise-the-current-row: result == ite(ctx.candidate != nil, len(ctx.rows), ctx.cur)
+
+extern optInt
+  props C15
+  option pure
+
+extern fieldName
+  props C15
+  option pure
+
+func positionalField
+  props C15
+  option safety
+  requires ctx != nil
+  ensures prev-and-next-look-at-the-whole-match-from-the-current-position: len(args) > 0 ==> result == ite(posIndex(ctx) + sign * optInt(args, 1, 1) < 0 || posIndex(ctx) + sign * optInt(args, 1, 1) >= len(ctx.rows), nil, ctx.rows[posIndex(ctx) + sign * optInt(args, 1, 1)][fieldName(args[0])])
+  ensures no-argument-no-value: len(args) == 0 ==> result == nil
 @*/
 
